@@ -1118,9 +1118,36 @@ def last_data_column_contract():
     return c_
 
 
-def cell_non_empty_assumed():
-    return FnContract(target=f"{XLSX}::_is_cell_non_empty", params=[("val", p_ext("XCell"))],
-                      returns=lambda c: VBool(CELL_NE(c.args["val"].t)), assumed=True)
+def p_cell_value():
+    """A spreadsheet cell value by dynamic type: None, a string, or a value that is neither (int / bool stand for every other type:
+    the body may only ask `is None` / `isinstance(.., str)` of such a value, anything else is outside the executor's subset)."""
+    def mk(ex, st, name):
+        return [(None, NONE), (None, VStr(z3.String(name))), (None, VInt(z3.Int(name + "!int"))), (None, VBool(z3.Bool(name + "!bool")))]
+    return Maker(mk, desc="cell value: None | str | other (int, bool)")
+
+
+def cell_non_empty_spec(v):
+    """"The cell carries data": it is not None and, when it is a string, it is not blank.  For an abstract cell (dynamic type not known,
+    the rows of the trimming functions) this is the uninterpreted predicate CELL_NE of the cell: the call-site view, implied by the
+    verified cases because they give the result as a function of the value alone."""
+    if isinstance(v, VExt):
+        return CELL_NE(v.t)
+    if v is NONE or type(v).__name__ == "VNoneT":
+        return z3.BoolVal(False)
+    if isinstance(v, VStr):
+        return STRIP(v.t) != z3.StringVal("")
+    if isinstance(v, (VInt, VBool)):
+        return z3.BoolVal(True)
+    from pyvc.ops import Unsupported
+    raise Unsupported(f"cell value of a kind the contract does not describe: {v!r}")
+
+
+def cell_non_empty_contract():
+    """round 7: `_is_cell_non_empty` is VERIFIED on its real body (was an assumed contract); the row / column trimming functions call it
+    through this same contract."""
+    return FnContract(target=f"{XLSX}::_is_cell_non_empty", params=[("val", p_cell_value())],
+                      returns=lambda c: VBool(cell_non_empty_spec(c.args["val"])), raises=[],
+                      note="non-empty == not None and (not a string or strip() != '')")
 
 
 # ------------------------------------------- slide text accessors (round 7: verified) --
@@ -1602,7 +1629,7 @@ def contracts(reg):
     out.append(parse_spine_contract())
     out.append(last_data_row_contract())
     out.append(last_data_column_contract())
-    out.append(cell_non_empty_assumed())
+    out.append(cell_non_empty_contract())
     out.append(text_combined_contract("PptSlideContent", True))
     out.append(text_combined_contract("OdpSlide", False))
     # e-mail glue shared with C16 (message boundaries and the body text that becomes the unit are part of both properties): the
